@@ -92,8 +92,13 @@ Proof. exists 1, (repeat 1 100%nat). split; [reflexivity|]. vm_compute. discrimi
 (* ------------------------------------------------------------------ tar framing of zip uploads *)
 (* 9. what ReadZipTar hands the server-side signer is the complete zip and its central directory *)
 Theorem zip_tar_roundtrip : forall dirloc f, 0 <= dirloc <= zlen f ->
-  read_zip_tar (zip_to_tar dirloc f) = Ok (zdrop dirloc f, f).
+  exists ms, zip_to_tar dirloc f = Ok ms /\ read_zip_tar ms = Ok (zdrop dirloc f, f).
 Proof. exact C09.Proofs.zip_tar_roundtrip. Qed.
+(* the upload stream is a function of the file alone: ZipToTar, tarAddStream, the Mach-O and DMG producers and MsiToTar
+   contain no Seek call (positioned reads only), so a producer left over from an abandoned attempt cannot disturb the
+   next GetReader.  Source fact re-read by srcgen on every run; the schedules themselves are exercised by the harness. *)
+Theorem reader_repeatable : producers_use_positioned_reads = true.
+Proof. reflexivity. Qed.
 
 (* ------------------------------------------------------------------ compression negotiation *)
 (* 10. selectEncoding = "snappy over gzip over nothing, unknown tokens ignored" *)
